@@ -3,10 +3,12 @@ Line-protocol driver for the pure numeric models.   lake env lean --run Driver/P
   snap <isBuy> <priceBits> <tickBits>        -> V <num> <den>     (exact rational result, C19)
   snapf <isBuy> <priceBits> <tickBits>       -> V <bits>          (same expression in doubles)
   index <n> {<priceBits> <shares>}*           -> V <bits>          (Float instance, C17)
+  fcn / mm / arb ...                          -> V … orders         (Float instance of the agent formulas, C20)
 -/
 import Driver.Proto
 import PamsModel.Tick
 import PamsModel.Index
+import PamsModel.Agents
 
 open Proto
 
@@ -26,6 +28,9 @@ def fl (s : String) : Float := Float.ofBits (UInt64.ofNat s.toNat!)
 def pComps : Parser (List (Float × Nat)) := do
   let n ← nat
   many n (do let b ← nat; let s ← nat; pure (Float.ofBits (UInt64.ofNat b), s))
+
+def showOrder (o : Pams.Agents.AOrder Float) : String :=
+  s!" {if o.isBuy then 1 else 0} {o.price.toBits.toNat} {o.vol} {o.ttl}"
 
 def stepLine (line : String) : List String :=
   match tokens line with
@@ -47,6 +52,27 @@ def stepLine (line : String) : List String :=
     match runP pComps rest with
     | .ok cs => [s!"V {(Pams.Index.indexValue cs).toBits.toNat}"]
     | .error e => [s!"E {e}"]
+  | ["fcn", mp, fund, mpPast, wf, wc, wn, noise, margin, tw, mrt, window, cf] =>
+    let elr := Pams.Agents.fcnLogReturn (fl mp) (fl fund) (fl mpPast) (fl wf) (fl wc) (fl wn) (fl noise)
+      tw.toNat! mrt.toNat! (cf = "1")
+    let e := Pams.Agents.fcnExpected (fl mp) elr window.toNat!
+    let os := Pams.Agents.fcnOrders (fl mp) e (fl margin) window.toNat!
+    [s!"V {elr.toBits.toNat} {e.toBits.toNat} {os.length}" ++ String.join (os.map showOrder)]
+  | ["mm", maxBuy, minSell, mp, fund, spread, ttl] =>
+    let ob (x : String) : Option Float := if x = "-" then none else some (fl x)
+    let base := Pams.Agents.mmBase (ob maxBuy) (ob minSell) (fl mp) 2.0
+    let os := Pams.Agents.mmOrders base (fl fund) (fl spread) 0.5 ttl.toNat!
+    [s!"V {os.length}" ++ String.join (os.map showOrder)]
+  | "arb" :: ip :: idx :: th :: im :: v :: ttl :: n :: rest =>
+    let n := n.toNat!
+    let rec comps (l : List String) (k : Nat) : List (Nat × Float) :=
+      match k, l with
+      | k + 1, m :: p :: tl => (m.toNat!, fl p) :: comps tl k
+      | _, _ => []
+    let cs := comps rest n
+    let side := Pams.Agents.arbSide (fl ip) (fl idx) (fl th)
+    let os := Pams.Agents.arbOrders side im.toNat! (fl ip) cs v.toNat! ttl.toNat!
+    [s!"V {os.length}" ++ String.join (os.map (fun o => s!" {o.1}" ++ showOrder o.2))]
   | t :: _ => [s!"E unknown {t}"]
 
 partial def loop (h : IO.FS.Stream) : IO Unit := do
